@@ -63,7 +63,7 @@ func crossI(a, b iv3) iv3 {
 }
 
 func checkC19(ctx *Ctx, r *Report, tier string) {
-	r.Explain = "The dual-contouring stitching tables are verified exhaustively against a one-level refinement model of the octree built from the repository's own child offsets (adjacent child pairs, interior-edge quadruples in a fixed right-handed block order, face/edge recursion masks, local-edge lookup), and the orientation rule (emission order, flip predicate, corner-sign convention) is shown to produce normals from solid to void in both renderers; the degenerate filter of the voxel renderer and a per-axis copy/paste lint are checked. Vertex placement (QEF), distances and the documented boundary holes are not decided; determinism lints for these renderers run under C09."
+	r.Explain = "The dual-contouring stitching tables are verified exhaustively against a one-level refinement model of the octree built from the repository's own child offsets (adjacent child pairs, interior-edge quadruples in a fixed right-handed block order, face/edge recursion masks, local-edge lookup), and the orientation rule (emission order, flip predicate, corner-sign convention) is shown to produce normals from solid to void in both renderers; the degenerate filter of the voxel renderer and a per-axis copy/paste lint are checked. Vertex placement (QEF), distances and the documented boundary holes are not decided; determinism lints for these renderers run under C09. Also: the octree's lattice pruning over all small configurations, voxel tiling of the V2 renderer, distance culling (if any) against the node's true half diagonal, nextPowerOfTwo on 1150 arguments, warn-once blocks."
 	r.Exhaust = true
 	r.Trusted = []string{"go/types", "go/ssa", "the refinement model in the checker"}
 	r.Assume = []string{"surface strictly inside the sampled volume"}
